@@ -30,7 +30,7 @@ def monitor(am, engine, cx, events, snaps):
         if not begins:
             continue
         end = begins[1] if len(begins) > 1 else len(new)
-        bracket = new[begins[0] + 1:end]
+        bracket = [o for o in new[begins[0] + 1:end] if o[0] != "clock"]     # (the clock stamp of the event is not an effect)
         fired = [o[1] for o in bracket if o[0] == "trans"]
         if can and can[0] != (1 if L not in ([], "ERR") else 0):
             out.append(("can(%r) answered %s but the nominee set is %s" % (ev[0], bool(can[0]), L),
